@@ -162,6 +162,35 @@ def _text_level(ctx, case, cfg, addrs, rng, L, B, pranges):
     return True
 
 
+def _via_files_with_stale_map(fcfg, text):
+    import os
+    import shutil
+    import tempfile
+
+    nc = load.nc()
+    pp, pa = fcfg.get("pp"), fcfg.get("pa")
+    kw = dict(preserve_prefixes=None if pp is None else list(pp), preserve_networks=None if pa is None else list(pa))
+    if fcfg.get("B4") is not None:
+        kw["preserve_suffix_v4"] = fcfg["B4"]
+    if fcfg.get("B6") is not None:
+        kw["preserve_suffix_v6"] = fcfg["B6"]
+    os.makedirs(os.path.join(load.VERIF, ".work"), exist_ok=True)
+    d = tempfile.mkdtemp(dir=os.path.join(load.VERIF, ".work"))
+    try:
+        with open(os.path.join(d, "in.cfg"), "w") as f:
+            f.write(text)
+        with open(os.path.join(d, "earlier.cfg"), "w") as f:
+            f.write("".join(text.splitlines(True)[::2]))  # the earlier run saw half of these addresses
+        nc.af.anonymize_files(os.path.join(d, "earlier.cfg"), os.path.join(d, "old.cfg"), False, True, salt=(fcfg["salt"] or "") + "-earlier",
+                              dumpfile=os.path.join(d, "map.tsv"), **{k: (list(v) if isinstance(v, list) else v) for k, v in kw.items()})
+        nc.af.anonymize_files(os.path.join(d, "in.cfg"), os.path.join(d, "out.cfg"), False, True, salt=fcfg["salt"],
+                              dumpfile=os.path.join(d, "map.tsv"), **{k: (list(v) if isinstance(v, list) else v) for k, v in kw.items()})
+        with open(os.path.join(d, "out.cfg")) as f:
+            return f.read()
+    finally:
+        shutil.rmtree(d, ignore_errors=True)
+
+
 def _filelevel(ctx, case):
     """What a reader of the OUTPUT FILE sees, through FileAnonymizer: for each family the map input token -> output
     token (whatever the tool decided to leave alone) must be injective and prefix-preserving."""
@@ -171,6 +200,7 @@ def _filelevel(ctx, case):
 
     fcfg = case["fcfg"]
     rng = random.Random(case["aseed"])
+    mode = case["aseed"] % 4
     fa = ipref.file_anonymizer(fcfg)
     for fam in (4, 6):
         L = 32 if fam == 4 else 128
@@ -182,7 +212,17 @@ def _filelevel(ctx, case):
         tokre = _V4TOK if fam == 4 else _V6TOK
         addrs = [a for a in addrs if not (fam == 4 and ipgen.is_mask_ref(a))][:400]
         text = "".join(" address %s;\n" % mk(a) for a in addrs)
-        out = ipref.run_io(fa, text).split("\n")
+        if mode == 1:
+            # other options of the run that name addresses as TEXT (a reserved-word list) say nothing about the mapping
+            fa = ipref.file_anonymizer(fcfg, reserved_words=[str(mk(a)) for a in rng.sample(addrs, min(5, len(addrs)))] + ["MyWord"])
+            ctx.count("file_level_runs_with_addresses_as_reserved_words")
+        if mode == 2:
+            # through anonymize_files, with a map file left at the dump path by a run made with ANOTHER salt
+            out = _via_files_with_stale_map(fcfg, text)
+            ctx.count("file_level_runs_with_stale_map_file")
+        else:
+            out = ipref.run_io(fa, text)
+        out = out.split("\n")
         tt = FlipTable(L, min(B, L))
         img = {}
         for a, ol in zip(addrs, out):
